@@ -56,7 +56,9 @@ WIDTH = [0.05, 0.3, 0.5, 1.0, 1.5, 2.5, 5.0, 10.0]                              
 PROFS = ['box', 'sinc2', 'gaussian', 'lorentzian', 'voigt']
 COMPACT = ('box', 'sinc2')
 STYLES = ['plain', 'quantity']
-LEVELS = {'plain': 2.5, 'quantity': 0.75}     # level is tied to the argument style (declared pairing)
+LEVELS = {'plain': 2.5, 'quantity': 0.75,     # level is tied to the argument style (declared pairing)
+          'quantity_scaled': 0.75,             # kHz / MHz / mHz-per-second Quantities (unit conversion must happen everywhere)
+          'np_f32': np.float32(2.5), 'np_i64': np.int64(3), 'py_int': 2}    # level given as other numeric types
 
 TOL_SAME = 1e-12        # helper vs general route: same expression on the same floats (rules 4/5)
 K_EPS = 16              # edge / region epsilon in ulps of the largest frequency (+ 1e-9 of the width)
@@ -147,6 +149,9 @@ def _helper(fr, c, f_start, drift, width, smear):
     if c['style'] == 'quantity':
         return fr.add_constant_signal(f_start=f_start * u.Hz, drift_rate=drift * u.Hz / u.s, level=level,
                                       width=width * u.Hz, f_profile_type=c['prof'], doppler_smearing=smear)
+    if c['style'] == 'quantity_scaled':
+        return fr.add_constant_signal(f_start=(f_start * 1e-6) * u.MHz, drift_rate=(drift * 1e3) * u.mHz / u.s, level=level,
+                                      width=(width * 1e-3) * u.kHz, f_profile_type=c['prof'], doppler_smearing=smear)
     d = 0 if drift == 0 else drift        # the pinned tests pass a Python int for "no drift"
     return fr.add_constant_signal(f_start, d, level, width, f_profile_type=c['prof'], doppler_smearing=smear)
 
@@ -415,6 +420,12 @@ def run(ctx):
         # argument style is exercised on the smallest time extent only
         extra = [dict(c, style='quantity') for c in cases if c['tchans'] == 2 and c['asc']]
         cases += extra
+    # other unit prefixes and other numeric types for the level: on a sub-box (every start position x drift x width,
+    # box and gaussian profiles, both smearing settings, shortest multi-row frame)
+    base = [c for c in cases if c['style'] == 'plain' and c['tchans'] == 2 and c['asc'] and c['prof'] in ('box', 'gaussian')
+            and c['geom'] == geoms[0]]
+    for st in ('quantity_scaled', 'np_f32', 'np_i64', 'py_int'):
+        cases += [dict(c, style=st) for c in base]
     ctx.pmap(case_const, cases)
     mirrors = []
     zs = []
